@@ -880,6 +880,11 @@ def c01_commit_order(env, ob):
             okc = ret_is_ok(rv)
             c, t, fl = idx(path, RX_COMMIT_REC), idx(path, RX_COMMIT_TXN), idx(path, RX_FLUSH)
             if not c:
+                # COMMIT on a transaction that already ended is a no-op: nothing is acknowledged that is not in the log
+                ended = [e for e in path.events if callee_is(e, r"(can_commit|is_active|is_open|is_finished|has_ended)$")
+                         and isinstance(e["ret"], Leaf) and (f"(not {e['ret'].term})" in path.pc or e["ret"].term in path.pc)]
+                if ended and not t:
+                    return None
                 return (f"ok_without_commit_record@{name}", okc)
             if not fl or fl[-1] < c[-1]:
                 return (f"ok_without_force_after_commit_record@{name}", okc)
@@ -978,6 +983,44 @@ def c01_checkpoint_order(env, ob):
             return ("truncated_log_not_forced:log_file_left_without_header", ok)
         return None
     return trace_obligation(env, ob, ctx, res, bad, "checkpoint steps out of order", cuts_ok=True)
+
+
+@obligation(id="C02.redo_and_undo_follow_the_transactions_own_records", also="C01,C08", funcs="WalRecuperator::run_redo,WalRecuperator::run_undo",
+            bounds="every path of run_redo / run_undo for one transaction with one record (loops unrolled once); callees "
+                   "uninterpreted", native="c02_interleaved_transactions_crash")
+def c02_own_chain(env, ob):
+    """Records of different transactions interleave in the log.  The redo of a committed transaction (and the undo of a
+    loser) must walk that transaction's OWN chain of LSNs (AnalysisResult::try_iter_lsn) - any walk over an LSN range
+    replays whatever other transactions logged in between, under the wrong fate."""
+    agg = None
+    APPLIED = "record applied"
+
+    def m_stop(ex, path, frame, callee, args_, dest_ty):
+        # the path is followed up to the first record it applies: what matters is how it got there
+        path.events.append({"callee": callee, "args": args_, "ret": None, "fn": "", "argdesc": [mirsmt.describe(a) for a in args_],
+                            "modelled": True, "pc_prefix": list(path.pc)})
+        return mirsmt.Panic(APPLIED)
+    for fn in ("run_redo", "run_undo"):
+        ctx, f, args, res = explore(env, "io/recovery.rs", fn, loop_bound=1,
+                                    models={r"^WalRecuperator::(redo|undo)_(insert|update|delete|create|alter|drop)$": m_stop})
+        hits = [(p, Unit()) for p, rv in res if p.panics and p.panics.startswith(APPLIED)]
+        if not hits:
+            agg = merge(agg, result(ob, "inconclusive", reason=f"vacuity: {fn} never applies a record", paths=len(res)))
+            continue
+        for p, _ in hits:
+            p.panics = None
+
+        def bad(path, rv, fn=fn):
+            applied = idx(path, r"WalRecuperator::(redo|undo)_(insert|update|delete|create|alter|drop)$")
+            if not applied:
+                return None
+            if not [i for i in idx(path, r"AnalysisResult::try_iter_lsn$") if i < applied[0]]:
+                return (f"records_applied_without_walking_the_transactions_own_lsn_chain@{fn}", None)
+            if idx(path, r"RangeInclusive::<u64>::new$|Range::<u64>|lsn_chains"):
+                return (f"records_applied_over_an_lsn_range@{fn}", None)
+            return None
+        agg = merge(agg, trace_obligation(env, ob, ctx, hits, bad, f"{fn} does not follow the transaction's own LSN chain", cuts_ok=True))
+    return agg
 
 
 @obligation(id="C01.redo_applies_committed_rows", also="C02", funcs="WalRecuperator::redo_insert,WalRecuperator::run_redo",
@@ -2701,7 +2744,7 @@ def c16_ops_unwrap(env, ob):
 # ---------------------------------------------------------------------------------------------------------------------
 # C08: recovery is ordered, ends by emptying the log only after it succeeded, and its redo can be repeated
 # ---------------------------------------------------------------------------------------------------------------------
-@obligation(id="C08.recovery_phases_in_order", funcs="Database::run_recovery::{closure#0},WalRecuperator::run_recovery",
+@obligation(id="C08.recovery_phases_in_order", also="C02,C01", funcs="Database::run_recovery::{closure#0},WalRecuperator::run_recovery",
             bounds="every path of the recovery worker closure and of WalRecuperator::run_recovery; callees uninterpreted "
                    "(each phase may fail)", native="c08_recovery_can_be_repeated")
 def c08_phases(env, ob):
@@ -3475,6 +3518,36 @@ def c05_where_step(env, ob):
             native="c05_limit_offset_distinct_where")
 def c05_distinct_step(env, ob):
     return _gate_step(env, ob, "runtime/ops/distinct.rs", r"HashSet::<.*>::insert$", "the_first_occurrence_test")
+
+
+@obligation(id="C05.order_by_is_lexicographic", funcs="QuickSort::compare_keys",
+            bounds="every path of the sort comparator through <= 2 sort keys (loop unrolled twice); value comparison abstract",
+            native="c05_order_by_ties_and_nulls")
+def c05_sort_lex(env, ob):
+    """ORDER BY k1, k2, ..: the comparison may be decided at key i only when key i differs (NULLs included: two NULLs tie and
+    the next key decides).  Every return from inside the loop over the sort keys must follow the `cmp != Equal` test of
+    that key."""
+    ctx, f, args, res = explore(env, "runtime/ops/sort.rs", "compare_keys", loop_bound=2)
+
+    def bad(path, rv):
+        if path.panics or rv is None:
+            return None
+        nx = idx(path, r"as Iterator>::next$")
+        if not nx:
+            return None
+        last = path.events[nx[-1]]["ret"]
+        some = f"(= {last.get_disc().term} {bvconst(1, 64)})" if isinstance(last, Agg) else None
+        if some is None or some not in path.pc:
+            return None            # the key list was exhausted: every key tied
+        tests = [e for e in path.events[nx[-1]:] if callee_is(e, r"Ordering as PartialEq>::(ne|eq)$") and isinstance(e["ret"], Leaf)]
+        decided = [e for e in tests if (e["ret"].term in path.pc and e["callee"].endswith("ne"))
+                   or (f"(not {e['ret'].term})" in path.pc and e["callee"].endswith("eq"))]
+        if not decided:
+            return ("comparison_decided_at_a_key_without_establishing_that_the_key_differs", None)
+        return None
+    if not any(idx(p, r"Ordering as PartialEq>::(ne|eq)$") for p, rv in res):
+        return result(ob, "inconclusive", reason="vacuity: compare_keys never tests a key comparison against Equal", paths=len(res))
+    return trace_obligation(env, ob, ctx, res, bad, "the sort comparator stops at a key that ties", cuts_ok=True)
 
 
 # ---------------------------------------------------------------------------------------------------------------------
